@@ -515,7 +515,7 @@ def _coq_list(s):
 # ------------------------------------------------------------------------------------------------ X
 
 def correspond(ctx):
-    strings = _cases(ctx, ctx.scale(2500, 30000), ctx.scale(4, 5), with_sweep=False)
+    strings = _cases(ctx, ctx.scale(2500, 12000), 4, with_sweep=False)
     impl = _eval_impl(ctx, strings)
     header = ('From Coq Require Import QArith Qround.\nFrom HailV Require Import Common.Prelude Regex.Regex SizeParse.Model.\n'
               'From HailG Require Import C25.Gen.\nOpen Scope N_scope.')
@@ -541,7 +541,7 @@ def correspond(ctx):
             dis.append(Disagreement('mem_spec~parse_storage_in_bytes', {'fn': 'storage', 's': s}, un(mm), ist))
     # the model of fractions.Fraction(str) on the numerals
     nums = sorted({s.lstrip('+').rstrip('mKMGTPiB') for s in strings if ref_parse('mem', s) is not None or ref_parse('cpu', s) is not None})
-    nums = [x for x in nums if x and _ndigits(x) <= 400][:ctx.scale(1500, 10000)]
+    nums = [x for x in nums if x and _ndigits(x) <= 400][:ctx.scale(1500, 5000)]
     fr = ctx.run_impl('c25_parse.py', {'op': 'fraction', 'strings': [_cps(s) for s in nums]}, timeout=300)['fraction']
     exprs = []
     for i in range(0, len(nums), B):
@@ -557,7 +557,7 @@ def correspond(ctx):
                 rule='distinct strings: corpus + hand-written odd cases (unicode digits, exponents, case variants, newlines, 17+ digit numerals, '
                      '4300-digit numerals) + ALL strings of length <= %d over {0,5,.,+,m,K,i,B,G} + seeded grammar-directed random strings with '
                      'perturbations; non-trivial = in the cpu or memory grammar; real parse_* vs the proved executable parsers (vm_compute); '
-                     'real fractions.Fraction vs Model.frac_of_str on the numerals' % ctx.scale(4, 5),
+                     'real fractions.Fraction vs Model.frac_of_str on the numerals' % 4,
                 samples=[{'s': s, 'cpu': _show(ic), 'memory': _show(im)} for s, ic, im in list(zip(strings, impl['cpu'], impl['memory']))[100:103]],
                 disagreements=dis, histograms=hist,
                 names=['cpu_spec~parse_cpu_in_mcpu', 'mem_spec~parse_memory_in_bytes', 'mem_spec~parse_storage_in_bytes', 'frac_of_str~fractions.Fraction'])
